@@ -5,7 +5,7 @@
    Spec:  Uri/Spec.v (RFC 3986 2.1 / 3 / 5.2.4, RFC 7252 6.4 / 6.5). *)
 From LibcoapV Require Import Base.Tactics Base.Bytes Wire.OptCodec Uri.Uri Uri.Split Uri.Spec
   Uri.DotsProofs Uri.SegProofs Uri.PathProofs Uri.RebuildProofs Uri.SplitProofs Uri.Into
-  Uri.IntoProofs.
+  Uri.IntoProofs Uri.BufProofs Wire.OptCodec.
 Local Open Scope Z_scope.
 
 (* ------------------------------------------------------------------ no overread, every input *)
@@ -94,6 +94,20 @@ Theorem C16_path_rfc_trailing_dot_refuted :
             uri_split_path s 64 = UOk ([[1; 97]], 2) /\ uri_rfc_path s = Some [[97]; []].
 Proof. exists [97; 47; 46]. split; [vm_compute; discriminate|split; reflexivity]. Qed.
 Print Assumptions C16_path_rfc_trailing_dot_refuted.
+
+(* what is in the buffer reads back, with coap_opt_parse's model (Wire/OptCodec.v), as exactly the
+   list of values: the buffer determines the options *)
+Theorem C16_buffer_parses : forall l fuel,
+  Forall (fun v => len v <= 65804) l -> (length l <= fuel)%nat ->
+  opts_parse fuel 0 (concat (uri_encs l)) = Some (map (fun v => (0, v)) l, []).
+Proof. exact uri_buffer_parses. Qed.
+Print Assumptions C16_buffer_parses.
+
+Theorem C16_buffer_injective : forall l1 l2,
+  Forall (fun v => len v <= 65804) l1 -> Forall (fun v => len v <= 65804) l2 ->
+  concat (uri_encs l1) = concat (uri_encs l2) -> l1 = l2.
+Proof. exact uri_buffer_injective. Qed.
+Print Assumptions C16_buffer_injective.
 
 (* ------------------------------------------------------------------ query -> options *)
 Theorem C16_query_options : forall s buflen opts,
